@@ -79,13 +79,14 @@ func join(a, b lockset) lockset {
 }
 
 type accRow struct {
-	Field string
-	Func  string
-	Kind  int
-	Locks lockset
-	Init  bool
-	Pos   string
-	OnRecv bool // rooted at the receiver of the enclosing method
+	Field  string
+	Func   string
+	Kind   int
+	Locks  lockset
+	Init   bool
+	Pos    string
+	OnRecv bool           // rooted at the receiver of the enclosing method
+	Acq    map[string]int // for every lock held: the line where it was taken in this function (0: held on entry)
 }
 
 type callSite struct {
@@ -108,13 +109,13 @@ type fnInfo struct {
 }
 
 type analyzer struct {
-	fset  *token.FileSet
-	info  *types.Info
-	pkg   string // short package name for keys
-	rows  []accRow
-	calls []callSite
-	fns   map[string]*fnInfo
-	repo  string
+	fset     *token.FileSet
+	info     *types.Info
+	pkg      string // short package name for keys
+	rows     []accRow
+	calls    []callSite
+	fns      map[string]*fnInfo
+	repo     string
 	closures map[types.Object]string // local variables holding a function literal that is only ever called
 }
 
@@ -124,6 +125,7 @@ type fnCtx struct {
 	fresh  map[types.Object]bool
 	sticky lockset // locks whose unlock is deferred
 	litN   int
+	acq    map[string]int // mutex -> line of the Lock / RLock statement of the critical section being analysed
 }
 
 func isSyncType(t types.Type) bool {
@@ -290,7 +292,11 @@ func (a *analyzer) record(ctx *fnCtx, sel *ast.SelectorExpr, kind int, held lock
 	}
 	p := a.fset.Position(sel.Sel.Pos())
 	rel, _ := filepath.Rel(a.repo, p.Filename)
-	a.rows = append(a.rows, accRow{Field: key, Func: ctx.name, Kind: kind, Locks: held.clone(), Init: init, OnRecv: onRecv, Pos: fmt.Sprintf("%s:%d", rel, p.Line)})
+	acq := map[string]int{}
+	for m := range held {
+		acq[m] = ctx.acq[m]
+	}
+	a.rows = append(a.rows, accRow{Field: key, Func: ctx.name, Kind: kind, Locks: held.clone(), Init: init, OnRecv: onRecv, Pos: fmt.Sprintf("%s:%d", rel, p.Line), Acq: acq})
 }
 
 func isMapOrSlice(t types.Type) bool {
@@ -379,7 +385,7 @@ func (a *analyzer) literal(ctx *fnCtx, lit *ast.FuncLit, held lockset, tag strin
 	name := fmt.Sprintf("%s$%s%d", ctx.name, tag, ctx.litN)
 	a.fns[name] = &fnInfo{name: name, literal: true, parent: ctx.name, deferred: held.clone(), spawned: spawned, escapes: tag == "lit"}
 	a.calls = append(a.calls, callSite{caller: ctx.name, callee: name, held: held.clone(), spawn: spawned, onRecv: true})
-	sub := &fnCtx{name: name, fresh: ctx.fresh, sticky: lockset{}, recv: ctx.recv}
+	sub := &fnCtx{name: name, fresh: ctx.fresh, sticky: lockset{}, recv: ctx.recv, acq: map[string]int{}}
 	a.block(sub, lit.Body.List, held.clone())
 	return name
 }
@@ -623,11 +629,15 @@ func (a *analyzer) stmt(ctx *fnCtx, s ast.Stmt, held lockset) (lockset, bool) {
 			switch op {
 			case "Lock":
 				held[m] = 2
+				ctx.acq[m] = a.fset.Position(x.Pos()).Line
 			case "RLock":
 				held[m] = 1
+				ctx.acq[m] = a.fset.Position(x.Pos()).Line
 			default:
 				delete(held, m)
 				delete(ctx.sticky, m)
+				// ctx.acq[m] stays: on the paths where m is still held (an early return released it on this one),
+				// the critical section is the one opened by the last Lock statement seen
 			}
 			return held, false
 		}
@@ -901,7 +911,7 @@ func (g *gen) accessTable() {
 					} else {
 						fns[name] = &fnInfo{name: name, exported: fo.Exported()}
 					}
-					ctx := &fnCtx{name: name, fresh: map[types.Object]bool{}, sticky: lockset{}}
+					ctx := &fnCtx{name: name, fresh: map[types.Object]bool{}, sticky: lockset{}, acq: map[string]int{}}
 					if fd.Recv != nil && len(fd.Recv.List) > 0 && len(fd.Recv.List[0].Names) > 0 {
 						ctx.recv = info.Defs[fd.Recv.List[0].Names[0]]
 					}
@@ -1060,6 +1070,32 @@ func (g *gen) accessTable() {
 		fmt.Fprintf(&sb, "  (%q, %q, %d%%Z, %s, %v, %q)%s\n", r.Field, r.Func, r.Kind, lockStr(r.Locks), r.Init, r.Pos, sep)
 	}
 	sb.WriteString("].\n\n")
+	// critical sections: for every access made with a lock held, where (line) in the same function that lock was taken
+	sb.WriteString("(* (field, function, kind, [(mutex, mode, line of the Lock / RLock statement in this function; 0 = held on entry)]):\n   two accesses of one function with the same mutex and the same non-zero line are in the same critical section *)\n")
+	sb.WriteString("Definition section_table : list (string * string * Z * list (string * Z * Z)) := [\n")
+	var secs []string
+	secSeen := map[string]bool{}
+	for _, r := range rows {
+		if len(r.Locks) == 0 {
+			continue
+		}
+		var ms []string
+		for m := range r.Locks {
+			ms = append(ms, m)
+		}
+		sort.Strings(ms)
+		var parts []string
+		for _, m := range ms {
+			parts = append(parts, fmt.Sprintf("(%q, %d%%Z, %d%%Z)", m, r.Locks[m], r.Acq[m]))
+		}
+		line := fmt.Sprintf("  (%q, %q, %d%%Z, [%s])", r.Field, r.Func, r.Kind, strings.Join(parts, "; "))
+		if !secSeen[line] {
+			secSeen[line] = true
+			secs = append(secs, line)
+		}
+	}
+	sb.WriteString(strings.Join(secs, ";\n"))
+	sb.WriteString("\n].\n\n")
 	sb.WriteString("(* synchronous call edges (caller, callee) between the analysed functions, closures included; `go` statements are not edges *)\nDefinition call_edges : list (string * string) := [\n")
 	edgeSeen := map[string]bool{}
 	var edges [][2]string
